@@ -681,9 +681,24 @@ def genMerge (rng : Rng) (broken : Bool) : Rng × Array String :=
         let (rng, d) := rng.pick leftData
         (rng, acc.2 ++ [if c = 0 ∧ nd.data.isSome then { nd with data := some d } else nd])) (rng, [])
     else (rng, tr)
-  -- left graph g0
+  -- left graph g0; one time in three a leaf of it (without data, under a parent that is not the root) was collected and
+  -- created again before the merge: it is present, ungrouped and blank, its parent is grouped and still holds the edge — a
+  -- tree of present vertices like any other, but `merge` finds the kid there *without* the two being in one group
+  let rootL := (tl.headD ⟨0, none, none⟩).id
+  let isLeaf (nd : TNode) : Bool := !tl.any (fun c => match c.parent with | some (q, _) => q = nd.id | none => false)
+  let cands := tl.filter (fun nd => nd.data.isNone && isLeaf nd && (match nd.parent with | some (q, _) => q != rootL | none => false))
+  let spare := (List.range capL).filter (· ∉ idsL)
+  let (rng, recre) := rng.below 3
   let s0 := GenSt.start rng n capL
-  let s0 := match s0.tryOps (treeOps tl) with | some x => x | none => s0
+  let s0 := match recre, cands, spare with
+    | 0, c :: _, d :: _ =>
+      (match (s0.tryOps [.add c.id, .add d, .bind c.id d (.alpha 0)]).bind (fun s => s.tryOps (treeOps tl)) with
+       | some s1 =>
+         (match s1.tryOps [.put d (Hx.Hex.ofBytes [4, 2]), .data d, .add c.id] with
+          | some s2 => if d ∈ s2.r.ids then (match s0.tryOps (treeOps tl) with | some x => x | none => s0) else s2
+          | none => (match s0.tryOps (treeOps tl) with | some x => x | none => s0))
+       | none => (match s0.tryOps (treeOps tl) with | some x => x | none => s0))
+    | _, _, _ => (match s0.tryOps (treeOps tl) with | some x => x | none => s0)
   -- some of its data already read (only reads that collect nothing)
   let s0 := tl.foldl (fun (s : GenSt) nd =>
     let (rng, c) := s.rng.below 3
@@ -780,6 +795,12 @@ def genJoin (rng : Rng) (len : Nat) : Rng × Array String :=
   let lines := (List.range capL).foldl (fun (ls : Array String) v =>
     ((ls.push s!"vprint g0 {v}").push s!"inspect g0 {v}").push s!"slice g0 {v} g{3 + v % 3} -") lines
   let lines := lines ++ #["observe g3", "observe g4", "observe g5", "clone g0 g6", "observe g6", "snap g6"]
+  -- scripts on it: literal ids (some of them the removed slot, some beyond the capacity), variables, a malformed command
+  let (rng, sv) := rng.below capL
+  let (rng, sw) := rng.below (capL + 2)
+  let scr (t : String) : String := "script g0 " ++ showTextTok t.toList
+  let lines := lines ++ #[scr s!"ADD($a); BIND({sv}, $a, foo); PUT($a, 0a-0b);", "observe g0",
+    scr s!"ADD({sw}); BIND({sw}, {sv}, α1); PUT({sv}, ff);", scr s!"ADD($b); BIND($b, {sv}); ADD({sw});", "observe g0", "snap g0"]
   let s0 : GenSt := { s0 with rng := rng, lines := lines }
   let s0 := (List.range (len / 2 + 4)).foldl (fun s _ => s.stepRandom wild) s0
   let (rng, l2) := pickV s0.rng s1.r capR
